@@ -262,6 +262,13 @@ def make_replay(prop, job, jr, ob, work, replay_dir):
     rep = dict(property=prop, job=job['id'], function=job['enforce'], source=job['src'], obligation=ob['name'], clause=ob.get('clause'),
                description=ob['desc'], location='%s:%s' % (ob.get('file'), ob.get('line')), reproduced=False)
     trace_txt = ''
+    if not os.path.exists(gb):
+        # the verdict came from the result cache: rebuild the binary from the preprocessed harness (still in the work
+        # directory) so that the counterexample can be extracted and replayed
+        mbdir = os.path.dirname(gb)
+        srcs = [x for x in (os.listdir(mbdir) if os.path.isdir(mbdir) else []) if x.endswith('.i')]
+        if srcs:
+            sh(['goto-cc', '--function', 'modeb_harness', os.path.join(mbdir, srcs[0]), '-o', gb], timeout=300)
     if os.path.exists(gb):
         flags = [x for x in CBMC_FLAGS]
         if job.get('unwind'):
